@@ -51,7 +51,7 @@ func genC12(rt *rapid.T) core.Scenario {
 	}
 	ns := rapid.IntRange(1, 2).Draw(rt, "nSubs")
 	for i := 0; i < ns; i++ {
-		sc.Subs = append(sc.Subs, rapid.IntRange(0, len(shapes)-1).Draw(rt, "subShape"))
+		sc.Subs = append(sc.Subs, rapid.IntRange(0, numStaticShapes-1).Draw(rt, "subShape"))
 	}
 	ni := rapid.IntRange(1, 3).Draw(rt, "nIncarnations")
 	for n := 0; n < ni; n++ {
@@ -64,7 +64,7 @@ func genC12(rt *rapid.T) core.Scenario {
 				// publish mostly the subscribed shapes
 				shape := sc.Subs[rapid.IntRange(0, len(sc.Subs)-1).Draw(rt, "pubSub")]
 				if rapid.IntRange(0, 3).Draw(rt, "otherShape") == 3 {
-					shape = rapid.IntRange(0, len(shapes)-1).Draw(rt, "pubShape")
+					shape = rapid.IntRange(0, numStaticShapes-1).Draw(rt, "pubShape")
 				}
 				inc.Publisher = append(inc.Publisher, C12Step{Kind: "pub", Shape: shape})
 			}
